@@ -28,10 +28,35 @@ func genC07(tier string, rng *Rng) {
 		runOp([]string{"cleanpath", s})
 	})
 	alpha := []byte("//..ab%2eEfF5c\\ ?#+")
+	// long paths around the 128-byte stack buffer of CleanPath (and the in-place rewriting of normalizePath):
+	// a prefix that needs rewriting, padded to every length 100..160 and a few larger ones
+	for _, pre := range []string{"/static/../../", "/a/./b//", "/..", "a/../", "/%2e%2e/%2E%2e/", "/ok/"} {
+		for k := 90; k <= 400; k++ {
+			if k > 160 && k%37 != 0 {
+				continue
+			}
+			for _, tail := range []string{"", "/..", "/.", "//"} {
+				b := append([]byte(pre), make([]byte, k)...)
+				for j := len(pre); j < len(b); j++ {
+					b[j] = 'x'
+					if j%29 == 28 {
+						b[j] = '/'
+					}
+				}
+				b = append(b, tail...)
+				s := hx(b)
+				runOp([]string{"normpath", s})
+				runOp([]string{"cleanpath", s})
+			}
+		}
+	}
 	for i := 0; i < nRand; i++ {
 		var b []byte
 		// structured: segments from a small vocabulary joined by slashes, then mutated
 		nseg := rng.Intn(10)
+		if i%5 == 0 {
+			nseg = 10 + rng.Intn(70)
+		}
 		for j := 0; j < nseg; j++ {
 			if rng.Intn(8) != 0 {
 				b = append(b, '/')
